@@ -11,8 +11,8 @@ SPEC = dict(
                 "adversarial oracle: ValueStack (all 14 operations, both pedantic modes, arbitrary closures, every capacity) never panics and "
                 "keeps 0 <= len <= capacity, and EVERY method (push, push_inline_operands, peek, pop, pop_usize, pop_count_checked, apply_unary/binary, clear, dup, swap, "
                 "copy_index, move_index, roll) refines a plain-list specification with exactly the Rust error cases, whole op sequences being observationally a list machine "
-                "(copy_index/move_index: index = top cell `as usize`, Underflow with the stack unchanged for len 0, negative or >= len index, and len 1 for move_index; "
-                "index 0 = the index cell itself; neither looks at is_pedantic); Decycler<_,D> never indexes out of [0,D), is exactly a "
+                "(copy_index/move_index as of /repo 5407d30, FreeType Ins_CINDEX/Ins_MINDEX: the index is popped first; outside 1..=depth it is Err InvalidStackValue(index) in pedantic mode and "
+                "push 0 / no-op otherwise; inside, r[index-1] is copied / rotated to the top; the pedantic flag changes the outcome EXACTLY when the stack is empty or the index is outside 1..=depth); Decycler<_,D> never indexes out of [0,D), is exactly a "
                 "stack of node ids with the depth cap and the depth/2 test, cuts every Enter-only descent longer than D and every eventually "
                 "periodic descent (prefix P, period L) within 2(P/L+1)L <= 2(P+L) Enters; CallStack is total with depth in [0,32]; the "
                 "interpreter run loop performs at most MAX_RUN_INSTRUCTIONS+1 dispatches for EVERY instruction oracle, never panics, keeps the "
